@@ -156,6 +156,7 @@ def run(ctx):
     from . import c03
     c03.check_scalar_mul(ctx, "C01.9")
     c03.check_point_add(ctx, "C01.9", "C01.9")
+    c03.check_helpers(ctx, "C01.9")  # the field helpers every point operation goes through
 
     # ---- sig(): modes
     fsig = ctx.fn("bits.utils.sig")
